@@ -103,6 +103,8 @@ func c06(c *eng.Ctx, r *eng.Report) {
 		"R6.4 no floating-point value flows into an amount except through Float64ToBigInt at the reviewed stake sites. " +
 		"R6.5 a failed transaction is rolled back through the journal, so the journal entries that carry balances (storageChange: balances and token slots live in account data; suicideChange: the balance a self-destruct zeroed) are undone by exactly their paired raw writes on every path through undo (the C04 pairing rule applied to these entries). " +
 		"R6.7 the affordability pre-check of a contract transaction prices the gas limit the transaction asked for (raw.GasLimit as decoded, never a smaller, capped figure): execution only ever lowers that limit, so the fee it bills is covered — a pre-check that caps differently from execution lets a debit be refused silently (SubBalance does nothing when funds are short) while the fee account is credited in full; " +
+		"R6.8 the free gas a value-bearing CALL/CALLCODE hands its callee is the constant CallStipend, which is below the CallValueTransferGas the caller was charged: a stipend that grows (scaled with proposal 026 while the price is not) lets a loop of 1-wei calls end with more gas than the limit, `gasLimit - leftOverGas` wraps, the sender's debit is refused and the fee account is still credited; " +
+		"R6.9 the storage key of a balance is the caller's own: GetERC20Key returns a slice of an array allocated in that call, never of a buffer kept on the AccountDB — journal entries keep the key slice, so with a shared buffer every entry since a snapshot points at the key computed last and a revert writes all old balances into one slot; " +
 		"R6.6 locked stake stays part of the conserved total: what GetRefundStake returns for payout is exactly what it subtracts from the miner's recorded stake, and its callers schedule that amount unchanged (C20's R20.3 under this property's id). " +
 		"Not decided: the sums themselves; EVM-internal accounting beyond the CanTransfer/Transfer pairing."
 	r.Assume = []string{"balances change only through the AccountDB/StateDB methods listed in rules/c06.go", "a storage slot of the bound wRPG contract is only written by that contract's own code (EVM SSTORE) besides these methods"}
@@ -113,6 +115,8 @@ func c06(c *eng.Ctx, r *eng.Report) {
 	c06Float(c, r, sites)
 	c04UndoAs(c, r, "R6.5", map[string]bool{"storageChange": true, "suicideChange": true}, 4)
 	c06PrecheckGas(c, r)
+	c06Stipend(c, r)
+	c06BalanceKeyFresh(c, r)
 	// R6.6: locked stake is part of the conserved total (the `lock` class of R6.1): what a refund pays out is exactly
 	// what it takes off the miner's recorded stake (C20's R20.3 re-run under this property's id)
 	sub := eng.NewReport(r.Prop, r.Tier)
@@ -528,4 +532,57 @@ func c06PrecheckGas(c *eng.Ctx, r *eng.Report) {
 		}
 	}
 	r.Check(bad == "" && n >= 1, rule, "precheck:gas-limit-uncapped", c.Pos(fn.Pos()), "the priced gas limit is raw.GasLimit as decoded", "preCheckContractFee prices "+bad+" instead of the gas limit the transaction asked for: where this figure is below what execution may run and bill (execution caps at 900M gas since proposal 026), a successful call that burns more than the sender holds has its debit silently refused while FeeAccount is credited the full fee — tokens are created")
+}
+
+// c06Stipend: gas is money here — what is left is refunded at the gas price.
+func c06Stipend(c *eng.Ctx, r *eng.Report) {
+	const rule = "R6.8"
+	r.Min(rule, 2)
+	for _, name := range []string{"opCall", "opCallCode"} {
+		fn := c.Func("vm", name)
+		if !r.Anchor(fn != nil, rule, "vm."+name) {
+			continue
+		}
+		bad, n := "", 0
+		for _, b := range fn.Blocks {
+			for _, in := range b.Instrs {
+				bo, ok := in.(*ssa.BinOp)
+				if !ok || bo.Op != token.ADD || !strings.Contains(eng.Desc(bo.X), "callGasTemp") {
+					continue
+				}
+				n++
+				if k, isK := eng.ConstInt(bo.Y); !isK || k != 2300 {
+					bad = eng.Desc(bo.Y)
+				}
+			}
+		}
+		r.Check(bad == "" && n == 1, rule, "stipend:"+name, c.Pos(fn.Pos()), "the stipend is the constant CallStipend (2300)", fmt.Sprintf("%s adds %s to the callee's gas instead of the constant CallStipend (sites=%d): gasCall charges a fixed CallValueTransferGas for the transfer, so a larger stipend returns more gas than the call cost — enough 1-wei calls leave more gas than the limit, the executor's `gasLimit - leftOverGas` wraps, the sender cannot pay the fee (debit silently refused) and FeeAccount is credited ~1.8e28 wei", name, bad, n))
+	}
+}
+
+// c06BalanceKeyFresh: see R6.9.
+func c06BalanceKeyFresh(c *eng.Ctx, r *eng.Report) {
+	const rule = "R6.9"
+	r.Min(rule, 1)
+	fn := c.Func(acctPkg, "(*AccountDB).GetERC20Key")
+	if !r.Anchor(fn != nil, rule, "(*AccountDB).GetERC20Key") {
+		return
+	}
+	bad := ""
+	for _, re := range eng.Returns(fn) {
+		v := re.Incoming(0)
+		ok := false
+		if sl, isSl := v.(*ssa.Slice); isSl {
+			if _, isAlloc := sl.X.(*ssa.Alloc); isAlloc {
+				ok = true
+			}
+		}
+		if _, isMk := v.(*ssa.MakeSlice); isMk {
+			ok = true
+		}
+		if !ok {
+			bad = eng.Desc(v)
+		}
+	}
+	r.Check(bad == "", rule, "GetERC20Key:fresh", c.Pos(fn.Pos()), "returns a slice of an array allocated in the call", "GetERC20Key returns "+bad+", memory that outlives the call and is overwritten by the next one: accountObject.SetData journals the key slice it is given, so after two balance writes both journal entries name the second key — RevertToSnapshot restores both old balances into that one slot, the sender stays debited and the recipient keeps the sender's old balance")
 }
